@@ -66,10 +66,26 @@ package gcsemu
 // finishCompose (C15): > 32 sources is a 400, a nil destination resource is a 400 (not a panic); every source is
 // fetched and validated against its own conditions (loop 1 invariant over metas) before the destination is
 // validated and the single Store.Add happens; an error never comes with an object.
+// Content (C15 "exactly the concatenation, in request order, of the current contents of the listed sources"): two ghost
+// variables are assigned after every Store.Get of this function (ghost code at the call site): compGets counts the
+// calls, compData accumulates the contents of the successful ones in call order. Loop 1 makes exactly one Get per
+// source, for that source (call-site precondition), and keeps `data` equal to the accumulated contents; the single
+// Store.Add receives exactly that, for the destination name, after len(srcs) Gets. The append goes into a buffer
+// that this function built itself (ownbuf, decided by data flow): it cannot write into an array a store holds.
+//@ ghostvar compGets int protocol
+//@ ghostvar compData string protocol
 //@ func (g *GcsEmu) finishCompose
 //@   property C15 C20 C07
 //@   requires gcsLockedKey == bucket + "/" + dst.filename
-//@   modifies fields(meta)
+//@   modifies fields(meta), ghost(compGets), ghost(compData)
+//@   callsite (Store).Get requires arg2 == bucket && arg3 == srcs[idx1+1].filename
+//@   callsite (Store).Get ghost compGets == compGets + 1
+//@   callsite (Store).Get ghost compData == ((result0 != nil && result2 == nil) ? compData + result1 : compData)
+//@   callsite builtin.append requires ownbuf
+//@   loop 1 invariant compGets == old(compGets) + idx1 + 1
+//@   loop 1 invariant old(compData) + data == compData
+//@   callsite (Store).Add requires compGets == old(compGets) + len(srcs) && old(compData) + arg3 == compData
+//@   callsite (Store).Add requires arg1 == bucket && arg2 == dst.filename && arg4 == meta
 //@   ensures len(srcs) > 32 ==> result0 == nil && is400(result1)
 //@   ensures len(srcs) <= 32 && meta == nil ==> result0 == nil && is400(result1)
 //@   ensures result1 != nil ==> result0 == nil
